@@ -207,6 +207,12 @@ func (o *Operator) HandleDeploy(ctx context.Context, req *workerpb.DeployOperato
 		return fmt.Errorf("creating filesystem: %w", err)
 	}
 
+	// A redeploy replaces the database: let the previous one finish its
+	// background work first, it shares the directory with the new one.
+	if err := o.db.Close(); err != nil {
+		o.Logger.Error("closing previous database", "err", err)
+	}
+
 	// Start the DKV database.
 	o.db = dkv.Open(dkv.DBOptions{
 		FileSystem:    fs,
